@@ -95,6 +95,11 @@ CHECKS = {
             "TSan; outputs compared with fresh renders, value/template/cache checked unchanged (template in a read-only "
             "mapping); sequential cache reuse with different values and pre-filled streams.",
             "schedules are sampled; TSan is happens-before based and only sees executed code", "3/C17"),
+    "C04": ("runtime differential monitor against an exact reference evaluator (python int / Fraction) over generated expression trees, observed through Evaluate and three rendered forms",
+            "Random trees over all 16 operators with every operand kind; integers must be exact, reals within rounding noise, "
+            "no-value cases must echo / not satisfy; mismatches are classified by re-evaluating the reference with a recorded "
+            "engine quirk switched on, so a recorded finding cannot hide a different defect.",
+            "the reference encodes the documented precedence; forms whose grouping the documentation leaves open are parenthesised or not generated", "3/C04"),
 }
 
 PENDING = {}
